@@ -3,6 +3,7 @@ CONSTANTS
   NCols = 2
   MaxRows = 1
   MaxCuts = 1
+  MaxExt = 2
 INVARIANT NeverFabricates
 INVARIANT ChunkInsensitive
 ACTION_CONSTRAINT Cover
